@@ -152,6 +152,7 @@ func checkC15(c *Ctx, r *Report) {
 			fmt.Sprintf("ParserInit does not re-establish the initial configuration (pointer = 1: %v, entry {Yystate: 0, YySymIndex: 1}: %v)", ptrOK, slotOK))
 		if !sk.V.Object {
 			c15FreshStack(r, "C15.c", sk)
+			c15SaveRestore(r, "C15.c", sk)
 		}
 		// slots are written only at the pointer or above-by-append: PushStateSym stores at [pointer]
 		push := sk.FuncDecl(recv, "PushStateSym")
@@ -339,6 +340,134 @@ func c15FreshStack(r *Report, clause string, sk *Skeleton) {
 	r.Check(ok, clause, "R12 STATE-INVENTORY", name+"/ParserInit/fresh-storage", sk.pos(init.Pos()),
 		"ParserInit installs a newly allocated stack (`"+oneLine(printNode(sk.Fset, rhs))+"`) that does not derive from the old one; needed because "+strings.Join(dedupStrings(aliases), " and "),
 		"ParserInit builds the new stack from the old one (`"+oneLine(printNode(sk.Fset, rhs))+"`), re-using its backing array, but "+strings.Join(dedupStrings(aliases), " and ")+": a nested parse (PushContex; ParserInit; Parser; PopContex) overwrites the outer parse's entries and a kept result is overwritten by the next parse")
+}
+
+// c15SaveRestore — global skeletons: PushContex saves exactly (the stack, the stack pointer) and PopContex restores
+// exactly that pair from the entry it then removes. A nested parse sandwiched between them must leave the outer
+// parse's configuration untouched: saving the stack's length (its high-water mark) instead of the pointer, restoring
+// from another entry, or dropping the entry before reading it breaks the outer parse.
+func c15SaveRestore(r *Report, clause string, sk *Skeleton) {
+	name := "skeleton " + sk.V.Name
+	push, pop := sk.FuncDecl("", "PushContex"), sk.FuncDecl("", "PopContex")
+	if push == nil && pop == nil {
+		return
+	}
+	if push == nil || pop == nil {
+		r.Fail(clause, "R12 STATE-INVENTORY", name+"/PushContex-PopContex/save-restore", sk.pos(token.NoPos), "only one of PushContex / PopContex exists")
+		return
+	}
+	info := sk.Info
+	pkgVar := func(e ast.Expr, n string) bool {
+		id, ok := unparen(e).(*ast.Ident)
+		return ok && isPkgLevelVar(info.Uses[id]) && id.Name == n
+	}
+	why := ""
+	// PushContex: <saved> = append(<saved>, Context{StackSym: StateSymStack, Stackpos: StackPointer})
+	var savedObj types.Object
+	okPush := false
+	ast.Inspect(push.Body, func(n ast.Node) bool {
+		as, ok := n.(*ast.AssignStmt)
+		if !ok || len(as.Lhs) != 1 || len(as.Rhs) != 1 {
+			return true
+		}
+		call, ok := unparen(as.Rhs[0]).(*ast.CallExpr)
+		if !ok || builtinName(info, call) != "append" || len(call.Args) != 2 || identObj(info, call.Args[0]) == nil || identObj(info, call.Args[0]) != identObj(info, as.Lhs[0]) {
+			return true
+		}
+		cl, ok := unparen(call.Args[1]).(*ast.CompositeLit)
+		if !ok {
+			return true
+		}
+		stackOK, ptrOK := false, false
+		for _, el := range cl.Elts {
+			kv, ok := el.(*ast.KeyValueExpr)
+			if !ok {
+				continue
+			}
+			k, _ := kv.Key.(*ast.Ident)
+			if k == nil {
+				continue
+			}
+			switch k.Name {
+			case "StackSym":
+				stackOK = pkgVar(kv.Value, "StateSymStack")
+			case "Stackpos":
+				ptrOK = pkgVar(kv.Value, "StackPointer")
+			}
+		}
+		savedObj = identObj(info, as.Lhs[0])
+		okPush = stackOK && ptrOK
+		if !stackOK {
+			why = "PushContex does not save the stack variable itself"
+		} else if !ptrOK {
+			why = "PushContex does not save the stack pointer (the saved position is another expression, e.g. the stack's length — its high-water mark, not the current depth)"
+		}
+		return true
+	})
+	if savedObj == nil {
+		why = "PushContex does not append a saved configuration"
+	}
+	// PopContex: StackPointer = saved[len(saved)-1].Stackpos; StateSymStack = saved[len(saved)-1].StackSym; then saved = saved[:len(saved)-1]
+	if okPush {
+		isLast := func(e ast.Expr, field string) bool {
+			se, ok := unparen(e).(*ast.SelectorExpr)
+			if !ok || se.Sel.Name != field {
+				return false
+			}
+			ix, ok := unparen(se.X).(*ast.IndexExpr)
+			if !ok || identObj(info, ix.X) != savedObj {
+				return false
+			}
+			be, ok := unparen(ix.Index).(*ast.BinaryExpr)
+			if !ok || be.Op != token.SUB {
+				return false
+			}
+			lc, ok := unparen(be.X).(*ast.CallExpr)
+			if !ok || builtinName(info, lc) != "len" || len(lc.Args) != 1 || identObj(info, lc.Args[0]) != savedObj {
+				return false
+			}
+			v, isC := constInt(info, be.Y)
+			return isC && v == 1
+		}
+		ptrAt, stackAt, dropAt := -1, -1, -1
+		for i, st := range pop.Body.List {
+			as, ok := st.(*ast.AssignStmt)
+			if !ok || len(as.Lhs) != 1 || len(as.Rhs) != 1 {
+				why = "PopContex contains a statement other than the three restoring assignments"
+				continue
+			}
+			switch {
+			case pkgVar(as.Lhs[0], "StackPointer") && isLast(as.Rhs[0], "Stackpos"):
+				ptrAt = i
+			case pkgVar(as.Lhs[0], "StateSymStack") && isLast(as.Rhs[0], "StackSym"):
+				stackAt = i
+			case identObj(info, as.Lhs[0]) == savedObj:
+				if se, ok := unparen(as.Rhs[0]).(*ast.SliceExpr); ok && identObj(info, se.X) == savedObj && se.Low == nil && se.High != nil {
+					if be, ok := unparen(se.High).(*ast.BinaryExpr); ok && be.Op == token.SUB {
+						if v, isC := constInt(info, be.Y); isC && v == 1 {
+							dropAt = i
+						}
+					}
+				}
+			default:
+				why = "PopContex assigns something other than the saved pointer / stack of the last entry (" + oneLine(printNode(sk.Fset, as)) + ")"
+			}
+		}
+		switch {
+		case why != "":
+		case ptrAt < 0:
+			why = "PopContex does not restore the stack pointer from the last saved entry"
+		case stackAt < 0:
+			why = "PopContex does not restore the stack from the last saved entry"
+		case dropAt < 0:
+			why = "PopContex does not remove the entry it restored from"
+		case dropAt < ptrAt || dropAt < stackAt:
+			why = "PopContex removes the saved entry before reading it"
+		}
+	}
+	r.Check(why == "", clause, "R12 STATE-INVENTORY", name+"/PushContex-PopContex/save-restore", sk.pos(push.Pos()),
+		"PushContex saves (StateSymStack, StackPointer); PopContex restores both from the last saved entry and then removes it: a nested parse leaves the outer configuration as it was",
+		"a nested parse does not get the outer configuration back: "+why)
 }
 
 // c15FreshStackAll evaluates the fresh-storage rule on every global skeleton (used as a prerequisite clause by the
